@@ -217,11 +217,12 @@ for _p in ("C02", "C08", "C16"):
                                   "in-order slice assignment; range(lo, hi) iterates in order; integration by parts for the derivative relation "
                                   "(tied to the closed-form specification by the per-shape contract up to extent 5)")
 for _p in ("C03", "C14"):
-    CHECKS[_p].harnesses.append("contracts.unbounded:OneElecVerticalAnyL")
-    CHECKS[_p].assumptions.append("contracts.unbounded (vertical recursion of the one-electron kernel, any l): engine/generic.py's reading of numpy basic "
-                                  "indexing / broadcasting / in-order slice assignment; the Obara-Saika vertical relation characterises the auxiliary "
-                                  "integrals (tied to the Boys-derivative specification by the per-shape contract up to l_a + l_b = 6); contraction, "
-                                  "horizontal recursion and component norms are covered per shape only")
+    CHECKS[_p].harnesses.append("contracts.unbounded:OneElecKernelAnyL")
+    CHECKS[_p].assumptions.append("contracts.unbounded (the WHOLE one-electron kernel, any l_a, l_b): engine/generic.py's reading of numpy basic indexing / "
+                                  "broadcasting / in-order slice assignment / tensordot over a concrete axis / transpose of leading axes; (4 alpha)^(l/2) and "
+                                  "(2k-1)!! with symbolic l, k as opaque positive atoms built identically on the specification side; the Obara-Saika vertical "
+                                  "and horizontal relations characterise the integrals (tied to the Boys-derivative specification by the per-shape contract "
+                                  "up to l_a + l_b = 6)")
 for _p in ("C04", "C17"):
     CHECKS[_p].harnesses.append("contracts.unbounded:TwoElecRecursionsAnyL")
     CHECKS[_p].assumptions.append("contracts.unbounded (vertical and electron-transfer recursions of the two-electron kernel, any l): engine/generic.py's "
